@@ -82,6 +82,28 @@ def extract_reports(out, tags):
     return res
 
 
+def merge(results):
+    """one TLCResult for several runs of the same module over disjoint batches of the input"""
+    if len(results) == 1:
+        return results[0]
+    m = TLCResult()
+    m.transitions = 0
+    for r in results:
+        m.states += r.states
+        m.transitions += getattr(r, "transitions", 0)
+        m.wall += r.wall
+        m.out += r.out[-20000:]
+        m.ok = all(x.ok for x in results)
+        m.invariant_violated = m.invariant_violated or r.invariant_violated
+        m.error_text = m.error_text or r.error_text
+        for t, lst in r.reports.items():
+            m.reports.setdefault(t, []).extend(lst)
+    # a batch that did not run counts as "did not run" for the whole
+    if any(r.states == 0 for r in results):
+        m.states = 0
+    return m
+
+
 def _corrupt(env, seed):
     """bin/selftest-corrupt: flips ONE recorded leaf value in the observation file handed to TLC (binding self-test:
     a check whose specification really constrains the recorded data reports a violation).  Never active in a check run."""
